@@ -4473,6 +4473,7 @@ func (t *Terminal) Loop() error {
 				if items == nil {
 					continue
 				}
+				verifTrace("preview.take", int(version)+1, len(items), query)
 				version++
 				// We don't display preview window if no match
 				if items[0] != nil {
@@ -4637,6 +4638,7 @@ func (t *Terminal) Loop() error {
 	refreshPreview := func(command string) {
 		if len(command) > 0 && t.canPreview() {
 			_, list := t.buildPlusList(command, false)
+			verifTrace("preview.enqueue", int(t.currentIndex()), 0, string(t.input))
 			t.cancelPreview()
 			t.previewBox.Set(reqPreviewEnqueue, previewRequest{command, t.evaluateScrollOffset(), list, t.environForPreview(), string(t.input)})
 		}
